@@ -78,10 +78,10 @@ impl Workspace {
             Some(uri) => {
                 match masters.get(uri.as_str()) {
                     Some(s) => s,
-                    None => masters.iter().next().unwrap()
+                    None => masters.iter().min().unwrap()
                 }
             },
-            None => masters.iter().next().unwrap()
+            None => masters.iter().min().unwrap()
         };
         for doc in &self.docs {
             if doc.uri.as_str() == preferred {
